@@ -366,6 +366,14 @@ func (w *c13World) run(ev c13Ev) (c13Ev, string) {
 			w.t.Fatal(err)
 		}
 		return ev, w.observe("tick")
+	case "skew":
+		// the first transaction stamps every DID's version with its own clock reading (CreateOrUpdate: time.Now().Unix()):
+		// make the pending versions of method ev.A ev.D seconds older than the others
+		if err := w.db.Exec("UPDATE did_document_version SET updated_at = updated_at - ? WHERE id IN (SELECT did_document_version_id FROM did_change_log) AND did LIKE ?",
+			ev.D, "did:"+ev.A+":%").Error; err != nil {
+			w.t.Fatal(err)
+		}
+		return ev, w.observe("skew")
 	case "sweep":
 		w.inj.sweepErr = ""
 		w.mgr.Rollback(w.ctx)
@@ -507,6 +515,14 @@ func c13Variants(sid string, seq []c13Ev, methods []string, rng *rand.Rand, all 
 			v = append(v, rest...)
 			v = append(v, c13Ev{Op: "tick", D: 70}, c13Ev{Op: "sweep"})
 			out = append(out, v)
+			// (c) the did:nuts version was stamped 2 s before the did:web version; the first sweep runs when only it is old
+			if f.f == "stop" && len(methods) == 2 && (all || rng.Intn(2) == 0) {
+				v := append([]c13Ev{cfg(fmt.Sprintf("quiet:%d", j))}, pre...)
+				v = append(v, bad, c13Ev{Op: "skew", A: "nuts", D: 2}, c13Ev{Op: "tick", D: 59}, c13Ev{Op: "sweep"}, c13Ev{Op: "tick", D: 70}, c13Ev{Op: "sweep"}, retry)
+				v = append(v, rest...)
+				v = append(v, c13Ev{Op: "tick", D: 70}, c13Ev{Op: "sweep"})
+				out = append(out, v)
+			}
 			// (b) not quiet: the sequence continues right after the fault, the sweep comes last
 			if f.f == "stop" && len(rest) > 0 && (all || rng.Intn(2) == 0) {
 				v := append([]c13Ev{cfg(fmt.Sprintf("busy:%d", j))}, pre...)
